@@ -172,7 +172,7 @@ def refine_vcs(ex, label, st0, body_outs, spec_outs):
                 sol.add(ex.ctx.axioms)
                 sol.add(b.st.pc + spec_defs)
                 sol.add(z3.Not(z3.And(conds) if conds else z3.BoolVal(True)))
-                if hard_check(sol, int(os.environ.get("PYVC_SELECT_MS", "400"))) == z3.unsat:
+                if hard_check(sol, int(os.environ.get("PYVC_SELECT_MS", "4000" if kind == "return" else "400"))) == z3.unsat:
                     cands = [s]
                     break
         if len(cands) == 1 and not ec:
@@ -186,6 +186,17 @@ def refine_vcs(ex, label, st0, body_outs, spec_outs):
                 bv = b.value if b.kind == "return" else NONE
                 ex._cmp_heaps = (b.st.heap, s.st.heap)
                 ex.ctx.oblige(f"{label}/refines#{i}:{what}:result", b.st.pc + spec_defs + conds, value_eq(ex, bv, s.value), "refines")
+            continue
+        if len(cands) > 1 and not ec and kind == "raise" and all(all(s.st.heap.get(o) is cands[0].st.heap.get(o) for o in oids) for s in cands):
+            # all raising alternatives of the contract end in the very same state (all-or-nothing): no need to know
+            # which one applies -- some alternative's condition holds, and the state equals that common state
+            alts_c = []
+            for s in cands:
+                _, conds = split_defs(ex, s.st.pc, base)
+                alts_c.append(z3.And(conds) if conds else z3.BoolVal(True))
+            ex.ctx.oblige(f"{label}/refines#{i}:{what}:condition", b.st.pc + spec_defs, z3.Or(alts_c), "refines")
+            for lab, f in heap_eq_parts(ex, b.st.heap, cands[0].st.heap, oids):
+                ex.ctx.oblige(f"{label}/refines#{i}:{what}:{lab}", b.st.pc + spec_defs, f, "refines")
             continue
         for s in cands:
             _, conds = split_defs(ex, s.st.pc, base)
